@@ -124,3 +124,43 @@ theorem swapIn_k (total a rin rout fee : Nat) (ht : total ≤ M) (hfee : fee * M
   nlinarith
 
 end Mx.Pair
+
+namespace Mx.Pair
+
+/-- K never decreases on a fee-charging fixed-output swap: the `+1` in the charge more than
+    pays for whatever fee (up to the total fee) is kept out of the reserve -/
+theorem swapOut_k (total out rin rout fee : Nat) (ht : total < M) (ho : out < rout)
+    (hfee : fee * M ≤ amountIn total out rin rout * total) :
+    rin * rout ≤ (rin + (amountIn total out rin rout - fee)) * (rout - out) := by
+  unfold amountIn at *
+  have hd : 0 < (rout - out) * (M - total) := Nat.mul_pos (by omega) (by omega)
+  have hlt := Nat.lt_mul_div_succ (rin * out * M) hd
+  generalize rin * out * M / ((rout - out) * (M - total)) + 1 = ain at *
+  obtain ⟨t, rfl⟩ := Nat.exists_eq_add_of_lt ho
+  have e : out + t + 1 - out = t + 1 := by omega
+  rw [e] at hlt hd ⊢
+  obtain ⟨g, hg⟩ : ∃ g, M = total + g := ⟨M - total, by omega⟩
+  have e2 : M - total = g := by omega
+  rw [e2] at hlt hd
+  have hM : 0 < M := by unfold M; decide
+  have hfa : fee ≤ ain := by
+    by_contra hc
+    have : ain * M < fee * M := Nat.mul_lt_mul_of_pos_right (by omega) hM
+    have : ain * total ≤ ain * M := Nat.mul_le_mul_left _ (by omega)
+    omega
+  obtain ⟨b, rfl⟩ := Nat.exists_eq_add_of_le hfa
+  rw [Nat.add_sub_cancel_left]
+  -- fee*g ≤ b*total ; rin*out*M < (t+1)*g*(fee+b)
+  have k2 : fee * g ≤ b * total := by
+    rw [hg] at hfee
+    nlinarith [hfee]
+  have k3 : (t + 1) * g * (fee + b) ≤ b * (t + 1) * M := by
+    rw [hg]
+    nlinarith [Nat.mul_le_mul_right (t + 1) k2]
+  have key : rin * out * M ≤ (b * (t + 1)) * M := by
+    calc rin * out * M ≤ (t + 1) * g * (fee + b) := Nat.le_of_lt hlt
+      _ ≤ b * (t + 1) * M := k3
+  have : rin * out ≤ b * (t + 1) := Nat.le_of_mul_le_mul_right key hM
+  nlinarith
+
+end Mx.Pair
